@@ -57,6 +57,8 @@ def _product_spec(call: ast.AST) -> Optional[Tuple[str, str]]:
     """For itertools.product(*X): ('items'|'keys', base sequence text) where X = (f.items() for f in reversed(S)) or reversed(S)."""
     if isinstance(call, ast.Call) and dotted(call.func) == "enumerate" and call.args:
         call = call.args[0]
+    if isinstance(call, ast.Call) and dotted(call.func) == "zip" and len(call.args) == 2 and isinstance(call.args[0], ast.Name):
+        call = call.args[1]   # zip(<labels>, <product>): the labels travel with the tuples
     if not (isinstance(call, ast.Call) and (dotted(call.func) or "").endswith("product") and len(call.args) == 1
             and isinstance(call.args[0], ast.Starred) and not call.keywords):
         return None
@@ -98,11 +100,12 @@ def r1(ctx):
                 continue
             spec = _product_spec(lp.iter)
             enumerated = isinstance(lp.iter, ast.Call) and dotted(lp.iter.func) == "enumerate"
+            zipped = isinstance(lp.iter, ast.Call) and dotted(lp.iter.func) == "zip" and len(lp.iter.args) == 2 and isinstance(lp.iter.args[0], ast.Name)
             if spec is None or spec[0] != "items" or spec[1] != f"reversed({factors})":
                 ctx.fail("C02.R1", inst, where, cons,
                          f"value loop iterates `{norm(lp.iter)[:100]}`; expected itertools.product(*(f.items() for f in reversed({factors})))")
                 continue
-            if enumerated:
+            if enumerated or zipped:
                 if not (isinstance(lp.target, ast.Tuple) and len(lp.target.elts) == 2 and all(isinstance(e, ast.Name) for e in lp.target.elts)):
                     ctx.fail("C02.R1", inst, where, cons, "enumerate target is not (index, tuple)")
                     continue
@@ -140,12 +143,16 @@ def r1(ctx):
                 continue
             # label
             key = st.targets[0].slice
-            if enumerated and isinstance(key, ast.Subscript) and isinstance(key.value, ast.Name) and isinstance(key.slice, ast.Name):
-                ok = key.slice.id == idx and any(n == key.value.id for n, _, _ in names_def)
-                msg = f"label `{norm(key)}` is not the precomputed name list indexed by the loop's own enumerate index `{idx}`"
+            by_index = enumerated and isinstance(key, ast.Subscript) and isinstance(key.value, ast.Name) and isinstance(key.slice, ast.Name)
+            by_zip = zipped and isinstance(key, ast.Name)
+            if by_index or by_zip:
+                names_var = key.value.id if by_index else lp.iter.args[0].id
+                ok = (key.slice.id == idx if by_index else key.id == idx) and any(n == names_var for n, _, _ in names_def)
+                msg = f"label `{norm(key)}` is not the precomputed name list indexed by the loop's own enumerate index `{idx}`" if by_index else \
+                    f"label `{norm(key)}` is not the element of the precomputed name list that is zipped with the product tuple"
                 if ok:
-                    nv = [v for n, v, _ in names_def if n == key.value.id][0]
-                    nst = [s_ for n, v, s_ in names_def if n == key.value.id][0]
+                    nv = [v for n, v, _ in names_def if n == names_var][0]
+                    nst = [s_ for n, v, s_ in names_def if n == names_var][0]
                     g = nv.generators[0]
                     pv = g.target.id if isinstance(g.target, ast.Name) else "?"
                     nspec = _product_spec(g.iter)
@@ -607,9 +614,40 @@ def _body_text(fn) -> List[str]:
     """Statement texts of the alpha-canonical form of the function (local names, nested scopes and loop-local
     variables renamed canonically): two functions that differ only in the spelling of locals have the same text."""
     from ..util import canon_ast
-    tree = canon_ast(fn)
+    tree = canon_ast(_unzip(fn))
     body = [s for s in tree.body if not (isinstance(s, ast.Expr) and isinstance(s.value, ast.Constant) and isinstance(s.value.value, str))]
     return [norm(s) for s in body]
+
+
+def _unzip(fn):
+    """`for a, b in zip(A, B): …a…`  ->  `for i, b in enumerate(B): …A[i]…` (A a plain name): the two spellings of a loop
+    that walks a label list alongside another sequence of the same length."""
+    import copy
+    fn = copy.deepcopy(fn)
+    k = [0]
+
+    class T(ast.NodeTransformer):
+        def visit_For(self, n):
+            self.generic_visit(n)
+            it = n.iter
+            if (isinstance(it, ast.Call) and dotted(it.func) == "zip" and len(it.args) == 2 and not it.keywords and isinstance(it.args[0], ast.Name)
+                    and isinstance(n.target, ast.Tuple) and len(n.target.elts) == 2 and isinstance(n.target.elts[0], ast.Name)):
+                a, A = n.target.elts[0].id, it.args[0].id
+                if any(isinstance(x, ast.Name) and x.id == a and isinstance(x.ctx, ast.Store) for s_ in n.body for x in ast.walk(s_)):
+                    return n
+                k[0] += 1
+                idx = f"_zi{k[0]}"
+
+                class R(ast.NodeTransformer):
+                    def visit_Name(self_, x):
+                        if x.id == a and isinstance(x.ctx, ast.Load):
+                            return ast.copy_location(ast.Subscript(value=ast.Name(id=A, ctx=ast.Load()), slice=ast.Name(id=idx, ctx=ast.Load()), ctx=ast.Load()), x)
+                        return x
+                n.body = [R().visit(s_) for s_ in n.body]
+                n.target = ast.Tuple(elts=[ast.Name(id=idx, ctx=ast.Store()), n.target.elts[1]], ctx=ast.Store())
+                n.iter = ast.Call(func=ast.Name(id="enumerate", ctx=ast.Load()), args=[it.args[1]], keywords=[])
+            return n
+    return ast.fix_missing_locations(T().visit(fn))
 
 
 def _first_diff(a: List[str], b: List[str]) -> str:
